@@ -22,6 +22,20 @@ func init() {
 				}
 				v := g.msg(t.ID, true, 0)
 				g.maxList = save
+				if i%4 == 3 {
+					// "nothing here" values on the wire: zero numbers, blank / "0" one-character codes — a decoder that assigns a
+					// field only under a condition typically keys on these
+					for k, op := range t.fieldOps() {
+						switch {
+						case op.K == "scalar" && g.r.Intn(2) == 0:
+							v.Fs[k] = &Val{K: 'n'}
+						case op.K == "fixed" && op.N <= 2:
+							v.Fs[k] = &Val{K: 's', S: [][]byte{nil, []byte("0"), []byte("1"), []byte("N")}[g.r.Intn(4)]}
+						case op.K == "fixed" && g.r.Intn(3) == 0:
+							v.Fs[k] = &Val{K: 's'}
+						}
+					}
+				}
 				r := goEnc(v, nil, BufMode{})
 				if r.Class != "ok" {
 					continue
